@@ -37,6 +37,8 @@ def run(ctx):
     lib_module.owned_arrays(ctx, P)          # dangling / writable views of library memory
     lib_tree.tree_copy_clear(ctx, P)         # traversal buffers are sized from the copied tree state
     lib_kind.takeset_atomic(ctx, P)
+    from . import lib_kind2
+    lib_kind2.guard_nan(ctx, P)
     lib_kind.dict_atomic(ctx, P)
     lib_stats.early_exits(ctx, P)
     from sa.schema import load_schemas
